@@ -261,6 +261,59 @@ fn probe_f64(func: &str) -> bool {
     false
 }
 
+fn probe_f64_exhaustive(func: &str) -> bool {
+    // every 3x3 matrix with entries in {-1, 0, 1, 2} and |det| >= 1 (exact in f64): residual of fdsolve with an f64 and a Dual
+    // right-hand side must vanish (value and derivative).  262144 matrices, ~143000 of them non-singular.
+    let alpha = [-1.0f64, 0.0, 1.0, 2.0];
+    let bf = Array1::from_vec(vec![1.0f64, -2.0, 3.0]);
+    let bd = Array1::from_vec(vec![Dual::new(1.0, vec!["r".to_string()]), Dual::new(-2.0, vec!["s".to_string()]), Dual::new(3.0, vec![])]);
+    let vars: Vec<String> = vec!["r".to_string(), "s".to_string()];
+    for code in 0..(4usize.pow(9)) {
+        let mut c = code;
+        let mut ent = [0.0f64; 9];
+        for e in ent.iter_mut() {
+            *e = alpha[c % 4];
+            c /= 4;
+        }
+        let a = Array2::from_shape_vec((3, 3), ent.to_vec()).unwrap();
+        if det(&a).abs() < 0.5 {
+            continue;
+        }
+        crate::CASES.fetch_add(1, std::sync::atomic::Ordering::Relaxed);
+        let xf = match std::panic::catch_unwind(std::panic::AssertUnwindSafe(|| fdsolve(&a.view(), &bf.view(), false))) {
+            Ok(x) => x,
+            Err(_) => {
+                report("probe", func, &format!("fdsolve on A = {:?} (row major), b = [1,-2,3]", ent), "PANIC", "a solution", false);
+                return true;
+            }
+        };
+        for i in 0..3 {
+            let r: f64 = (0..3).map(|j| a[[i, j]] * xf[j]).sum::<f64>() - bf[i];
+            if !(r.abs() < 1e-9) {
+                report("probe", func, &format!("fdsolve on A = {:?} (row major), b = [1,-2,3]: (A.x - b)[{}]", ent, i), &format!("{}", r), "0", false);
+                return true;
+            }
+        }
+        if code % 7 == 0 {
+            let xd = fdsolve(&a.view(), &bd.view(), false);
+            for i in 0..3 {
+                let mut acc = Dual::new(0.0, vec![]);
+                for j in 0..3 {
+                    acc = &acc + &(&xd[j] * a[[i, j]]);
+                }
+                let r = &acc - &bd[i];
+                let g = r.gradient1(vars.clone());
+                let worst = g.iter().fold(r.real().abs(), |m, v| m.max(v.abs()));
+                if !(worst < 1e-9) {
+                    report("probe", func, &format!("fdsolve on A = {:?} (row major), b = [1+dr,-2+ds,3]: largest |value / derivative| of (A.x - b)[{}]", ent, i), &format!("{}", worst), "0", false);
+                    return true;
+                }
+            }
+        }
+    }
+    false
+}
+
 fn probe_f64_lsq(func: &str) -> bool {
     // tall f64 system, Dual right-hand side: the normal equations A^T A x = A^T b must hold in value and derivative
     let a = Array2::from_shape_vec((3, 2), vec![1.0, 2.0, 0.0, 1.0, -1.0, 3.0]).unwrap();
@@ -297,7 +350,7 @@ pub fn probe(func: &str) -> bool {
     std::panic::set_hook(Box::new(|_| {}));
     match func {
         "dsolve21_" | "dsolve" | "dsolve_upper21_" | "dmul11_" | "dmul21_" | "dmul22_" | "argabsmax" | "row_swap" | "el_swap" => probe_mul(func) || probe_dual(func) || probe_dual2(func),
-        "fdsolve21_" | "fdsolve" | "fdsolve_upper21_" | "fdmul11_" | "fdmul21_" => probe_f64(func) || probe_f64_lsq(func),
+        "fdsolve21_" | "fdsolve" | "fdsolve_upper21_" | "fdmul11_" | "fdmul21_" => probe_f64(func) || probe_f64_lsq(func) || probe_f64_exhaustive(func),
         _ => false,
     }
 }
